@@ -6,6 +6,7 @@ package engx
 
 import (
 	"context"
+	"fmt"
 	"math/big"
 	"sync"
 
@@ -152,9 +153,11 @@ func (s *Store) GetTransaction(ctx context.Context, txID *big.Int) (*ledger.Tran
 
 // InsertLogs is called by the batch worker: it parks until the scheduler decides the outcome.
 func (s *Store) InsertLogs(ctx context.Context, logs ...*ledger.ChainedLog) error {
-	ok := s.S.workerArrive(s.Gen, logs)
-	if !ok {
+	switch s.S.workerArrive(s.Gen, logs) {
+	case 0:
 		return errInjected
+	case 2:
+		return fmt.Errorf("inserting logs: %w", context.Canceled)
 	}
 	s.D.mu.Lock()
 	s.D.Logs = append(s.D.Logs, logs...)
